@@ -1,0 +1,46 @@
+//! Verification hooks. Compiled only with `--cfg fclones_verif`; the shipped build never sees
+//! this module. Every hook is driven by an environment variable that is read only here.
+
+use std::collections::HashMap;
+use std::ffi::OsString;
+
+use sysinfo::DiskKind;
+
+use crate::config::Parallelism;
+
+/// Reads an integer tuning-knob override, e.g. `FCLONES_VERIF_MIN_PREFIX`.
+pub fn knob(name: &str) -> Option<u64> {
+    std::env::var(name).ok().and_then(|v| v.parse().ok())
+}
+
+/// A pinned device: (mount point, kind, name).
+pub struct PinnedDevice {
+    pub mount_point: String,
+    pub kind: DiskKind,
+    pub name: OsString,
+}
+
+/// Parses `FCLONES_VERIF_DEVICES`, a `;`-separated list of `mount=kind:name` entries where
+/// kind is one of `ssd`, `hdd`, `unknown`. Returns `None` when the variable is not set.
+pub fn pinned_devices() -> Option<Vec<PinnedDevice>> {
+    let spec = std::env::var("FCLONES_VERIF_DEVICES").ok()?;
+    let mut result = Vec::new();
+    for entry in spec.split(';').filter(|e| !e.is_empty()) {
+        let (mount, rest) = entry.split_once('=')?;
+        let (kind, name) = rest.split_once(':').unwrap_or((rest, "simdisk"));
+        let kind = match kind {
+            "ssd" => DiskKind::SSD,
+            "hdd" => DiskKind::HDD,
+            _ => DiskKind::Unknown(-1),
+        };
+        result.push(PinnedDevice {
+            mount_point: mount.to_owned(),
+            kind,
+            name: OsString::from(name),
+        });
+    }
+    Some(result)
+}
+
+#[allow(dead_code)]
+pub type PoolSizes = HashMap<OsString, Parallelism>;
